@@ -126,3 +126,36 @@ Section Valid.
       |split; [split; [intros _ H; apply E in H; discriminate|reflexivity]|intro H; apply E in H; discriminate]]).
   Qed.
 End Valid.
+
+(* ---- what an accepted tree cannot contain: in particular no $output key ---- *)
+Fixpoint has_key_anywhere (k : string) (v : value) : Prop :=
+  match v with
+  | VList l => (fix go (l : list value) := match l with [] => False | x :: xs => has_key_anywhere k x \/ go xs end) l
+  | VMap m => (fix go (m : emap) := match m with [] => False | (k', x) :: xs => k' = k \/ has_key_anywhere k x \/ go xs end) m
+  | _ => False
+  end.
+
+Lemma join_err_none a b : join_err a b = None -> a = None /\ b = None.
+Proof.
+  destruct a as [ea|], b as [eb|]; cbn.
+  - destruct ea, eb; discriminate.
+  - destruct ea; discriminate.
+  - destruct eb; discriminate.
+  - intros _. split; reflexivity.
+Qed.
+
+Lemma validated_no_key o k v : validate_string o k <> None -> validate_go o v = None -> ~ has_key_anywhere k v.
+Proof.
+  intro Hk. induction v as [| | | | |l IH|m IH] using value_ind'; intros Hv Hin; try exact Hin.
+  - cbn [validate_go] in Hv. cbn [has_key_anywhere] in Hin. induction IH as [|x xs Hx _ IHxs]; [exact Hin|].
+    apply join_err_none in Hv as [H1 H2]. destruct Hin as [Hin|Hin]; [exact (Hx H1 Hin)|exact (IHxs H2 Hin)].
+  - cbn [validate_go] in Hv. cbn [has_key_anywhere] in Hin. induction IH as [|[k' x] xs Hx _ IHxs]; [exact Hin|].
+    apply join_err_none in Hv as [H1 H2]. apply join_err_none in H1 as [H1k H1x].
+    destruct Hin as [E|[Hin|Hin]].
+    + subst k'. exact (Hk H1k).
+    + exact (Hx H1x Hin).
+    + exact (IHxs H2 Hin).
+Qed.
+
+Lemma validate_string_output o : validate_string o "$output" <> None.
+Proof. cbn. discriminate. Qed.
